@@ -332,6 +332,20 @@ func c14URL(t *rapid.T, l string) string {
 		u += "?" + rapid.StringMatching(`[a-z]{1,5}=[A-Za-z0-9:#@,;+%._-]{0,8}(&[a-z]{1,3}=[0-9]{1,4})?`).Draw(t, l+".query")
 		u = strings.ReplaceAll(u, "%", "%25")
 	}
+	// legal but unusual spellings, which a target must keep verbatim: an upper-case scheme, path
+	// characters that a URL printer would escape, non-ASCII text, a fragment
+	odd := rapid.IntRange(0, 11).Draw(t, l+".odd")
+	if odd == 2 && strings.Count(u, "/") < 3 && !strings.Contains(u, "?") {
+		u += "/" // (a fragment directly behind the host is not a well-formed request URI)
+	}
+	switch odd {
+	case 0:
+		u = strings.ToUpper(u[:strings.Index(u, ":")]) + u[strings.Index(u, ":"):]
+	case 1:
+		u += "/" + rapid.SampledFrom([]string{"a|b", "x^y", "{id}", "q\"uo\"te", "é漢", "a[1]", "<t>", "back\\slash", "semi;colon", "~user", "a//b", "%7Euser"}).Draw(t, l+".oddseg")
+	case 2:
+		u += "#" + rapid.SampledFrom([]string{"sec", "", "a/b", "x?y=1", "é"}).Draw(t, l+".frag")
+	}
 	return u
 }
 
